@@ -30,9 +30,9 @@ type forExpander struct {
 	// began (-1 if the last line of the body was not such a line)
 	forDanglingPos int
 
-	// labels have been put out by a block that emitted nothing, and the
-	// line they belong to has not been seen yet
-	pendingLabels bool
+	// labels of blocks that emitted nothing: they belong to the next
+	// instruction, FOR or END line and are held back until it is seen
+	heldLabels []string
 
 	// a block put out earlier in this pass holds blocks that the next pass
 	// expands
@@ -165,6 +165,7 @@ func forConsumeLabels(f *forExpander) forStateFn {
 				return forEquLine
 			} else if opLower == "end" {
 				// nothing after END belongs to the program
+				f.writeHeldLabels()
 				for _, label := range f.labelBuf {
 					f.tokens <- token{tokText, label}
 				}
@@ -199,12 +200,20 @@ func forConsumeLabels(f *forExpander) forStateFn {
 // forWriteLabelsEmitConsumeLine writes all the stored labels to the token channel,
 // emits the current nextToken and returns forConsumeLine
 func forWriteLabelsEmitConsumeLine(f *forExpander) forStateFn {
+	f.writeHeldLabels()
 	for _, label := range f.labelBuf {
 		f.tokens <- token{tokText, label}
 	}
 	f.labelBuf = make([]string, 0)
-	f.pendingLabels = false
 	return f.emitConsume(forConsumeEmitLine)
+}
+
+// writeHeldLabels puts out the labels of the blocks that emitted nothing
+func (f *forExpander) writeHeldLabels() {
+	for _, label := range f.heldLabels {
+		f.tokens <- token{tokText, label}
+	}
+	f.heldLabels = nil
 }
 
 // forEquLine passes an EQU line through like any other line and records its
@@ -215,7 +224,6 @@ func forEquLine(f *forExpander) forStateFn {
 		f.tokens <- token{tokText, label}
 	}
 	f.labelBuf = make([]string, 0)
-	f.pendingLabels = false
 
 	// the equ token itself
 	f.tokens <- f.nextToken
@@ -246,6 +254,9 @@ func forConsumeEmitLine(f *forExpander) forStateFn {
 	case tokError:
 		return f.emitConsume(nil)
 	case tokEOF:
+		// labels that are still held have no line to go to; the parser
+		// reports them
+		f.writeHeldLabels()
 		return f.emitConsume(nil)
 	default:
 		return f.emitConsume(forConsumeEmitLine)
@@ -376,7 +387,7 @@ func (f *forExpander) markLabelPos(isFor bool) {
 	// would be read as its count variable, so give it an unused one and
 	// they stay labels (derived from this block's own count variable, so
 	// that it is new at every level)
-	if isFor && len(f.labelBuf) == 0 && f.forDanglingPos < 0 && (len(f.forLineLabels) > 0 || f.pendingLabels) {
+	if isFor && len(f.labelBuf) == 0 && f.forDanglingPos < 0 && (len(f.forLineLabels) > 0 || len(f.heldLabels) > 0) {
 		f.labelBuf = append(f.labelBuf, "__for_unnamed_"+f.forCountLabel)
 	}
 }
@@ -474,6 +485,7 @@ func forRof(f *forExpander) forStateFn {
 
 	if f.forDeferred {
 		// put the block out as it was read; the next pass expands it
+		f.writeHeldLabels()
 		for _, label := range f.forLineLabels {
 			f.tokens <- token{tokText, label}
 		}
@@ -490,7 +502,6 @@ func forRof(f *forExpander) forStateFn {
 		}
 		f.tokens <- token{tokText, "rof"}
 		f.tokens <- token{typ: tokNewline}
-		f.pendingLabels = false
 		f.moreToExpand = true
 		return forLine
 	}
@@ -506,6 +517,7 @@ func forRof(f *forExpander) forStateFn {
 	for i := 1; i <= f.forCount; i++ {
 		for pos, tok := range f.forContent {
 			if i == 1 && emits && pos == f.forLabelPos {
+				f.writeHeldLabels()
 				for _, label := range f.forLineLabels {
 					f.tokens <- token{tokText, label}
 				}
@@ -526,15 +538,10 @@ func forRof(f *forExpander) forStateFn {
 		}
 	}
 
-	if emits {
-		f.pendingLabels = false
-	} else if len(f.forLineLabels) > 0 {
+	if !emits {
 		// the block emitted nothing (count zero, or no instruction in its
 		// body): its labels belong to whatever comes next
-		for _, label := range f.forLineLabels {
-			f.tokens <- token{tokText, label}
-		}
-		f.pendingLabels = true
+		f.heldLabels = append(f.heldLabels, f.forLineLabels...)
 	}
 
 	// carry on with the lines after the block: every outermost block of the
